@@ -370,6 +370,20 @@ def _gen_plan(family, rng, pool, tier):
         it['truth_len'] = e.get('truth', {}).get('section_lengths') if e.get('truth') else None
         return {'knobs': {}, 'items': [it], 'exprs': gen_md_exprs(rng)}
 
+    if family == 'c17-multi':
+        # one Decoder and ONE querent object used over several messages (with and without section 2,
+        # several editions, metadata-only and full decodes interleaved)
+        items = []
+        for e in _pick(rng, pool, rng.randint(2, 5), small):
+            raw = bytes.fromhex(e['hex'])
+            how = rng.choice(['info', 'info', 'full'])
+            fault = gen_data_damage(rng, raw) if (how == 'info' and rng.random() < 0.5) else None
+            it = _item(e, fault)
+            it['how'] = how
+            it['exprs'] = gen_md_exprs(rng)[:6]
+            items.append(it)
+        return {'knobs': {}, 'items': items}
+
     if family == 'c17-stream':
         n = rng.choice([1, 2, 2, 3, 4, 5, 6])
         items = []
@@ -472,6 +486,8 @@ def execute(plan):
         return exec_tail(plan)
     if fam == 'c17':
         return exec_c17(plan)
+    if fam == 'c17-multi':
+        return exec_c17_multi(plan)
     raise ValueError(fam)
 
 
@@ -598,11 +614,56 @@ def exec_c17(plan):
     except Exception as e:
         out['exc'] = exc_info(e)
     try:
-        dec.process(dmg)
+        mf = dec.process(dmg)
         out['full'] = 'ok'
     except Exception as e:
+        mf = None
         out['full'] = exc_info(e)['type']
+    # the lookup clauses hold for any message object: ask the fully decoded (undamaged) message too,
+    # where sections 4 and 5 exist
+    try:
+        mf = mf if (mf is not None and not it.get('fault')) else Decoder().process(raw)
+        q = MetadataQuerent(MetadataExprParser())
+        out['fsections'] = [[s.get_metadata('index'), [[p.name, canon(p.value) if p.type != 'template_data' else '<td>']
+                                                       for p in s]] for s in mf.sections]
+        out['fq'] = []
+        for ex in plan.get('exprs', []):
+            try:
+                v = q.query(mf, ex)
+                out['fq'].append([ex, 'ok', canon(v) if type(v).__name__ != 'TemplateData' else '<td>'])
+            except Exception as e:
+                out['fq'].append([ex, 'err', exc_info(e)])
+    except Exception as e:
+        out['fq_exc'] = exc_info(e)
     return out
+
+
+def exec_c17_multi(plan):
+    from pybufrkit.decoder import Decoder
+    from pybufrkit.mdquery import MetadataExprParser, MetadataQuerent
+    from sim.observe import canon, exc_info, quiet_std
+    quiet_std()
+    dec = Decoder()
+    q = MetadataQuerent(MetadataExprParser())
+    out = []
+    for it in plan['items']:
+        raw = bytes.fromhex(it['hex'])
+        dmg = bufrgen.apply_fault(raw, it['fault']) if it.get('fault') else raw
+        r = {'exc': None, 'q': [], 'sections': None}
+        try:
+            m = dec.process(dmg, info_only=(it['how'] == 'info'))
+            r['sections'] = [[s.get_metadata('index'), [[p.name, canon(p.value) if p.type != 'template_data' else '<td>']
+                                                        for p in s]] for s in m.sections]
+            for ex in it['exprs']:
+                try:
+                    v = q.query(m, ex)
+                    r['q'].append([ex, 'ok', canon(v) if type(v).__name__ != 'TemplateData' else '<td>'])
+                except Exception as e:
+                    r['q'].append([ex, 'err', exc_info(e)])
+        except Exception as e:
+            r['exc'] = exc_info(e)
+        out.append(r)
+    return {'per': out}
 
 
 # ----------------------------------------------------------------------------
@@ -839,6 +900,30 @@ def oracle(plan, tr):
         return []
     if fam == 'c17':
         return oracle_c17(plan, tr)
+    if fam == 'c17-multi':
+        out = []
+        for k, (it, r) in enumerate(zip(plan['items'], tr['per'])):
+            if r['exc'] is not None:
+                out.append({'property': 'C17', 'clause': 'C17.d-raise' if it['how'] == 'info' else 'C17.multi-full-raise',
+                            'exc_type': r['exc']['type'], 'raise_site': r['exc']['site'], 'position': min(k, 1)})
+                break
+            if it['how'] == 'info' and any(n == 'template_data' for _i, ps in r['sections'] for n, _v in ps):
+                out.append({'property': 'C17', 'clause': 'C17.d-reads-data', 'position': min(k, 1)})
+                break
+            for ex, st, val in r['q']:
+                exp = md_expected(ex, r['sections'])
+                if exp[0] == 'skip':
+                    continue
+                if exp[0] == 'err':
+                    if st != 'err' or val['type'] != 'MetadataExprParsingError':
+                        out.append({'property': 'C17', 'clause': 'C17.b-reject', 'expr_class': expr_class(ex),
+                                    'got': st if st == 'ok' else val['type'], 'position': min(k, 1)})
+                elif st != 'ok' or val != exp[1]:
+                    out.append({'property': 'C17', 'clause': 'C17.a-lookup', 'expr_class': expr_class(ex),
+                                'how': it['how'], 'position': min(k, 1)})
+            if out:
+                break
+        return out[:2]
     raise ValueError(fam)
 
 
@@ -878,6 +963,16 @@ def oracle_c17(plan, tr):
         else:
             if st != 'ok' or val != exp[1]:
                 out.append({'property': 'C17', 'clause': 'C17.a-lookup', 'expr_class': expr_class(ex)})
+    for ex, st, val in tr.get('fq', []):
+        exp = md_expected(ex, tr['fsections'])
+        if exp[0] == 'skip':
+            continue
+        if exp[0] == 'err':
+            if st != 'err' or val['type'] != 'MetadataExprParsingError':
+                out.append({'property': 'C17', 'clause': 'C17.b-reject', 'expr_class': expr_class(ex),
+                            'got': st if st == 'ok' else val['type'], 'how': 'full'})
+        elif st != 'ok' or val != exp[1]:
+            out.append({'property': 'C17', 'clause': 'C17.a-lookup', 'expr_class': expr_class(ex), 'how': 'full'})
     # ground truth by construction for synthetic messages
     if it.get('truth') and not out:
         by = {}
@@ -964,6 +1059,9 @@ def shape(plan, tr=None):
         return (fam, plan['items'][0]['ref'], kn.get('compiled'))
     if fam == 'c12-tail':
         return (fam, plan['items'][0]['cls'], kn.get('tail_kind'), kn.get('compiled'))
+    if fam == 'c17-multi':
+        return (fam, tuple((it['cls'], it['how'], bool(it.get('fault')),
+                            tuple(sorted(set(expr_class(e) for e in it['exprs'])))) for it in plan['items']))
     if fam == 'c17':
         it = plan['items'][0]
         f = it.get('fault') or {}
@@ -982,6 +1080,8 @@ def nontrivial(plan, tr):
         return any(it['fault'] for it in plan['items'])
     if fam == 'c17':
         return bool(plan['items'][0].get('fault'))
+    if fam == 'c17-multi':
+        return len(plan['items']) >= 2
     return True
 
 
@@ -1027,6 +1127,23 @@ def shrink_candidates(plan):
             p = _copy(plan)
             p['tail'] = t[:(len(t) // 4) * 2]
             yield p
+    elif fam == 'c17-multi':
+        n = len(plan['items'])
+        for i in range(n):
+            if n > 1:
+                p = _copy(plan)
+                del p['items'][i]
+                yield p
+        for i, it in enumerate(plan['items']):
+            if len(it['exprs']) > 1:
+                for part in (it['exprs'][:len(it['exprs']) // 2], it['exprs'][len(it['exprs']) // 2:]):
+                    p = _copy(plan)
+                    p['items'][i]['exprs'] = part
+                    yield p
+            if it.get('fault'):
+                p = _copy(plan)
+                p['items'][i]['fault'] = None
+                yield p
     elif fam == 'c17':
         ex = plan.get('exprs', [])
         if len(ex) > 1:
